@@ -505,6 +505,12 @@ func (s *Server) handleSession(clientMAC net.HardwareAddr, data []byte) {
 		return
 	}
 
+	// The declared payload length comes from the peer: it must cover the
+	// 2-byte PPP protocol field and fit in the bytes actually received
+	if hdr.Length < 2 || 6+int(hdr.Length) > len(data) {
+		return
+	}
+
 	session := s.sessions.GetSession(hdr.SessionID)
 	if session == nil {
 		return
